@@ -499,6 +499,10 @@ func (t *tr) applyContract(con *Contract, ct *callTarget, haveRecv bool, recv Te
 	sc2 := &specCtx{pkg: pkg, vars: vars2, cur: post, old: pre, where: con.File, qn: qn}
 	for _, kind := range []string{"ensures", "always_ensures", "ghost_ensures"} {
 		for _, cl := range con.clauses(kind) {
+			if strings.Contains(cl.Text, "at_loop(") {
+				// refers to an intermediate state of the callee: proved there, not usable (and not assumed) here
+				continue
+			}
 			sc2.where = cl.Where
 			t.assume(t.spec(cl.Expr, sc2))
 		}
